@@ -13,6 +13,12 @@ import (
 
 // zzRunSplit serves wire delivered as fragments cut at the given split points.
 func zzRunSplit(wire []byte, splits []int, stream bool) *zzRunResult {
+	return zzRunSplit2(wire, splits, stream, true)
+}
+
+// readBody=false: the handler of a streamed request returns without touching the body, so the
+// server has to drop it (the release path) before the next request
+func zzRunSplit2(wire []byte, splits []int, stream, readBody bool) *zzRunResult {
 	res := &zzRunResult{}
 	nc := zz.NewNetConn(wire)
 	if len(splits) > 0 {
@@ -29,7 +35,10 @@ func zzRunSplit(wire []byte, splits []int, stream bool) *zzRunResult {
 	res.nc = nc
 	core := zzNewCore(func(c context.Context, ctx *app.RequestContext) {
 		s := zzSeen{method: string(ctx.Method()), uri: string(ctx.Request.RequestURI()), cl: ctx.Request.Header.ContentLength()}
-		b := append([]byte(nil), ctx.Request.Body()...)
+		var b []byte
+		if readBody || !stream {
+			b = append(b, ctx.Request.Body()...)
+		}
 		// header fields as the handler sees them
 		b = append(b, '|')
 		ctx.Request.Header.VisitAll(func(k, v []byte) {
@@ -40,12 +49,14 @@ func zzRunSplit(wire []byte, splits []int, stream bool) *zzRunResult {
 		})
 		// trailer fields (available once the body has been read)
 		b = append(b, '|')
-		ctx.Request.Header.Trailer().VisitAll(func(k, v []byte) {
-			b = append(b, k...)
-			b = append(b, '=')
-			b = append(b, v...)
-			b = append(b, ';')
-		})
+		if readBody || !stream {
+			ctx.Request.Header.Trailer().VisitAll(func(k, v []byte) {
+				b = append(b, k...)
+				b = append(b, '=')
+				b = append(b, v...)
+				b = append(b, ';')
+			})
+		}
 		res.seen = append(res.seen, s)
 		res.bodies = append(res.bodies, b)
 		ctx.Response.SetBodyString("r" + s.uri)
@@ -121,8 +132,12 @@ func ZZ_C02_H1() {
 			break
 		}
 	}
-	whole := zzRunSplit(append([]byte(nil), wire...), nil, stream)
-	cut := zzRunSplit(append([]byte(nil), wire...), splits, stream)
+	readBody := true
+	if stream {
+		readBody = zz.Choose("handlerReadsBody", 2) == 1
+	}
+	whole := zzRunSplit2(append([]byte(nil), wire...), nil, stream, readBody)
+	cut := zzRunSplit2(append([]byte(nil), wire...), splits, stream, readBody)
 	zz.Cover("reached-assert", true)
 	zz.Cover("two-requests-served", len(whole.seen) == 2)
 	a, b, c := zzSameRuns(whole, cut)
